@@ -112,8 +112,9 @@ def composition(chk, pid, thorough, seed, rnd):
     chk.counters['system_guided_histories'] = len(guided)
     if not thorough:
         rnd.shuffle(guided)
-        fires = [h for h in guided if any(e['ev'] == 'PollerDone' for e in h)]
-        guided = fires[:1200] + [h for h in guided if not any(e['ev'] == 'PollerDone' for e in h)][:300]
+        # a waiter that looks (and, in the correct code, may have to keep waiting) is what matters here
+        looks = [h for h in guided if any(e['ev'] == 'PollerObserve' for e in h)]
+        guided = looks + [h for h in guided if not any(e['ev'] == 'PollerObserve' for e in h)][:300]
     hs = hs + guided
     jobs = [{'id': i, 'events': h, 'drain': True} for i, h in enumerate(hs)]
     files = chk.run_harness('compose_h', jobs)
